@@ -4,7 +4,7 @@
 From Coq Require Import ZArith List Bool.
 Import ListNotations.
 Require Import PV.Model.GraphAlg PV.Model.Split PV.Proofs.GraphSpec PV.Proofs.GraphBounded PV.Proofs.SplitBounded.
-Require Import PV.Proofs.ParMisProofs PV.Proofs.ParMisTerm PV.Proofs.RsIndep PV.Proofs.RsFinal.
+Require Import PV.Proofs.ParMisProofs PV.Proofs.ParMisTerm PV.Proofs.RsIndep PV.Proofs.RsFinal PV.Proofs.Pass2Proofs.
 From Coq Require Import Lia.
 
 (* first-pass Ruge-Stuben: 0/1 flags, a C point whenever there is an edge, and on symmetric
@@ -117,6 +117,28 @@ Proof.
   - intros i j Hi Hj. assert (C : (i = 0 \/ i = 1 \/ i = 2 \/ i = 3)%Z) by lia.
     destruct C as [-> | [-> | [-> | ->]]]; vm_compute in Hj; intuition (subst; vm_compute; auto).
 Qed.
+
+(* two-pass Ruge-Stuben, UNBOUNDED: for EVERY strength pattern (symmetric or not, with or without stored diagonal,
+   any T and influence handed to the first pass) with column indices below n, any number of vertices: the result is one
+   0/1 flag per vertex, and every fine point with a nonempty strength row strongly depends on a coarse point.
+   (First pass: the flags are 0/1 on every pattern.  Second pass, as the kernel does it -- on a second conflict in a
+   row the tentative coarse point is put back and the new one promoted: coarse points present when a row starts are
+   never demoted, and once the first entry of a fine row has been looked at the row contains a coarse point.) *)
+Theorem C13_rs_two_pass_cover : forall (N : nat) (Sp Sj Tp Tj infl : list Z),
+  (forall i, (0 <= i < Z.of_nat N)%Z -> forall j, In j (srow Sp Sj i) -> (0 <= j < Z.of_nat N)%Z) ->
+  let r := rs_pass2 (Z.of_nat N) Sp Sj (rs_cf_splitting (Z.of_nat N) Sp Sj Tp Tj infl) in
+  length r = N /\
+  (forall k, (0 <= k < Z.of_nat N)%Z -> get r k = 0%Z \/ get r k = 1%Z) /\
+  forall i, (0 <= i < Z.of_nat N)%Z -> get r i = 0%Z -> srow Sp Sj i <> [] -> exists j, In j (srow Sp Sj i) /\ get r j = 1%Z.
+Proof. exact rs_two_pass_cover. Qed.
+Print Assumptions C13_rs_two_pass_cover.
+(* non-vacuity: a nonsymmetric pattern (1 -> 3, 2 -> 1) on which the first pass alone leaves the fine point 2 without a
+   coarse point in its row, and the second pass promotes vertex 1 *)
+Example C13_rs_two_pass_example :
+  let Sp := [0; 0; 1; 2; 2]%Z in let Sj := [3; 1]%Z in let Tp := [0; 0; 1; 1; 2]%Z in let Tj := [2; 1]%Z in
+  rs_cf_splitting 4 Sp Sj Tp Tj [0; 0; 0; 0]%Z = [0; 0; 0; 1]%Z /\
+  rs_pass2 4 Sp Sj (rs_cf_splitting 4 Sp Sj Tp Tj [0; 0; 0; 0]%Z) = [0; 1; 0; 1]%Z.
+Proof. split; vm_compute; reflexivity. Qed.
 
 Example C13_enumeration_size : length all_patterns = 133%nat.
 Proof. exact all_patterns_count. Qed.
